@@ -513,6 +513,31 @@ def module_state_mutations(ctx) -> tuple[int, list[dict]]:
     return n_glob, out
 
 
+def worklist_walkers(ctx, prefixes) -> list[dict]:
+    """Iterative tree walks (`pending = [...]; while pending: cur = pending.pop(); ...; pending.extend(cur.children)`).
+    Verdict: the work list starts with the node the function was given - `[node]` - not with `node.children`, which
+    leaves the node itself untested (a bare identifier as the tail expression of a block, a one-node subtree)."""
+    out = []
+    for f in sorted(ctx.repo.funcs.values(), key=lambda x: x.qual):
+        if f.parent is not None or not f.module.name.startswith(prefixes):
+            continue
+        params = [a.arg for a in f.node.args.args if a.arg not in ("self", "cls")]
+        if not params:
+            continue
+        for loop in [n for n in ast.walk(f.node) if isinstance(n, ast.While) and isinstance(n.test, ast.Name)]:
+            wl = loop.test.id
+            pops = any(isinstance(c, ast.Call) and isinstance(c.func, ast.Attribute) and c.func.attr in ("pop", "popleft") and isinstance(c.func.value, ast.Name) and c.func.value.id == wl for c in ast.walk(loop))
+            feeds = any(isinstance(c, ast.Call) and isinstance(c.func, ast.Attribute) and c.func.attr in ("extend", "append", "extendleft") and isinstance(c.func.value, ast.Name) and c.func.value.id == wl
+                        and any(isinstance(x, ast.Attribute) and x.attr in ("children", "named_children") for a in c.args for x in ast.walk(a)) for c in ast.walk(loop))
+            if not (pops and feeds):
+                continue
+            init = next((a.value for a in ast.walk(f.node) if isinstance(a, (ast.Assign, ast.AnnAssign)) and getattr(a, "value", None) is not None and a.lineno < loop.lineno
+                         and any(isinstance(t, ast.Name) and t.id == wl for t in (a.targets if isinstance(a, ast.Assign) else [a.target]))), None)
+            from_children = init is not None and any(isinstance(x, ast.Attribute) and x.attr in ("children", "named_children") and isinstance(x.value, ast.Name) and x.value.id == params[0] for x in ast.walk(init))
+            out.append(dict(func=f.qual.replace("src.", "", 1), loc=f"{f.module.rel}:{loop.lineno}", ok=not from_children, init=norm(init) if init is not None else "?"))
+    return out
+
+
 def param_mutations(f: Func, pname: str) -> list[ast.AST]:
     """Statements of f that change the mapping/list passed in as parameter `pname` in place (update/setdefault/pop/...,
     item assignment or deletion) - the caller's object, which outlives the call."""
@@ -524,6 +549,9 @@ def param_mutations(f: Func, pname: str) -> list[ast.AST]:
             for t in (n.targets if isinstance(n, (ast.Assign, ast.Delete)) else [n.target]):
                 if isinstance(t, ast.Subscript) and isinstance(t.value, ast.Name) and t.value.id == pname:
                     out.append(n)
+            # `config |= other` / `items += more` update the caller's dict / list in place
+            if isinstance(n, ast.AugAssign) and isinstance(n.target, ast.Name) and n.target.id == pname and isinstance(n.op, (ast.BitOr, ast.Add)):
+                out.append(n)
     rebound = any(isinstance(n, ast.Assign) and any(isinstance(t, ast.Name) and t.id == pname for t in n.targets) for n in ast.walk(f.node))
     return [] if rebound else out   # `config = dict(config)` first: a private copy is being changed
 
